@@ -134,13 +134,13 @@ def run(ctx):
                 "document/fragment(26 containers) x scripting judged by Trace_Skeleton; model-derived depth pumping. "
                 "non-trivial = distinct (input, configuration)")
     # 1. model level + replay (exceptions and skeleton on spec behaviours)
-    for theme, cont, scr, n in [("frameset", "doc", False, 4 if q else 5), ("head", "doc", False, 3), ("table", "doc", False, 2 if q else 3), ("foreign", "doc", False, 2 if q else 3),
+    for theme, cont, scr, n in [("frameset", "doc", False, 4), ("head", "doc", False, 3), ("table", "doc", False, 2 if q else 3), ("foreign", "doc", False, 2 if q else 3),
                                 ("head", "doc", True, 2 if q else 3), ("blocks", "all", False, 1 if q else 2)]:
         c01.run_theme(ctx, theme, cont, scr, n, listed, "mc-%s-%s-%d-%d" % (theme, cont, int(scr), n))
     # random deep fragment strings (TLC -simulate): the skeleton theorem is an invariant of these runs as well
     #  (this is how the frameset pop-to-root defect, repaired in /repo, was found)
-    for theme, num in (("cover", 10 if q else 60), ("frameset", 6 if q else 40), ("foreign", 6 if q else 40),
-                       ("foreignnames", 8 if q else 50)):
+    for theme, num in (("cover", 10 if q else 30), ("frameset", 6 if q else 20), ("foreign", 6 if q else 20),
+                       ("foreignnames", 8 if q else 25)):
         c01.run_theme(ctx, theme, "doc", False, 9, listed, "sim-%s" % theme, simulate=(num, 9))
     ctx.exhaustive = True
     # 2. totality + skeleton on arbitrary inputs
